@@ -25,7 +25,7 @@ answers every request it receives with a flush of its shards and keeps polling a
 defer retirements flushes the retirement queue; (6) a retirement that could not complete is put back on the queue, and every
 delete / superseded generation taken out of a shard reaches the queue.
 """
-DECIDED = ["(1) worker shard sets partition the shard vector", "(2) periodic coordinator: always spawned, documented interval, all workers, "
+DECIDED = ["the reader count of an extent always comes back down, so a retirement is never parked for ever (shared with C08 / C18.readers)", "(1) worker shard sets partition the shard vector", "(2) periodic coordinator: always spawned, documented interval, all workers, "
            "each worker's own shards, count > 0 => wake on that worker's channel, worker 0 for pending retirements, retirements not deferred",
            "(3) full-buffer trigger: after every enqueue, owner = shard % W, non-strict thresholds",
            "(4) shard counters are maintained under the shard lock", "(5) every received request is answered by a flush; timeout keeps polling",
@@ -476,7 +476,7 @@ def check_worker(ctx):
 def check_retire(ctx, inst="C19.retire", parts=("worker", "putback", "handover")):
     b = ctx.fn("write_buffer::flush_worker_shards", inst)
     if b is not None:
-        fpd = ctx.sites(b, R.call("write_buffer::flush_pending_deletions"), inst, floor=1)
+        fpd = ctx.sites(b, R.call_or_thin_helper("write_buffer::flush_pending_deletions"), inst, floor=1)
         ed = A.pred_edges(b, lambda e: e.k == "arg" and e.extra[0] == 3, "true")
         ctx.check(bool(ed), inst, "anchor", b.path, "`flush_retirements` is branched on", None)
         for (s_, l_) in ed:
@@ -647,6 +647,14 @@ def check_queue_writers(ctx, inst="C19.retire/queue"):
     ctx.check(n_sites >= 3, inst, "anchor", "-", "operations on RetirementQueue.pending under its guard (>= 3, found %d)" % n_sites, None)
 
 
+def check_readers(ctx):
+    """retirement (and with it the release of the blocks) waits while extent_has_readers(): "once no reader holds them" is true
+    again only if every registration is taken back - a refused acquire that leaves its increment behind parks the generation's
+    retirement on every tick for ever (same rule as C08.pin / C18.readers)"""
+    from rules import C08
+    C08.check_reader_count(ctx, "C19.readers")
+
+
 def check_owner(ctx):
     from rules import C02
     C02.check_partition(ctx, inst="C19.owner")
@@ -688,4 +696,5 @@ def check(ctx):
     check_worker(ctx)
     check_retire(ctx)
     check_queue_writers(ctx)
+    check_readers(ctx)
     check_started(ctx)
